@@ -156,6 +156,17 @@ def one_case(ctx, case):
         if not up:
             stats["problems"].append("case %d: server did not come up" % case)
             return recs, stats
+        def rescan():
+            cache = ws.cache()
+            histories = {}
+            for n in os.listdir(hdir) if os.path.isdir(hdir) else []:
+                p = os.path.join(hdir, n)
+                if os.path.isfile(p) and not n.endswith(".tmp"):
+                    try:
+                        histories[n] = br.read_rule_history(open(p, "rb").read())
+                    except br.Malformed:
+                        pass
+            return cache, histories
         nontrivial = len(cache) >= 1 and any(len(h) >= 1 for h in histories.values())
         def judged(cls):
             stats["evaluations"] += 1
@@ -205,14 +216,31 @@ def one_case(ctx, case):
         if st != 404:
             bad("unknown-pair-not-404", "an unknown rule returned %s" % st)
 
+        # the ruler directory changes while the server runs: another build in the same workspace, then everything recorded
+        # now must be served as it is now
+        l = rng.choice(leaves)
+        ws.write(l, ws.fresh("live"))
+        ws.run("build"); steps.append("[server running] edit %s; build" % l); note()
+        if rng.random() < 0.5:
+            l2 = rng.choice(leaves); ws.write(l2, ("%s-v1\n" % l2.replace("/", "_")).encode()); ws.run("build"); steps.append("[server running] revert %s; build" % l2); note()
+        cache, histories = rescan()
+        for name, data in sorted(cache.items()):
+            st, body = http_get(port, "/files/" + name)
+            judged("cached-file-after-live-build")
+            if st != 200 or body != data:
+                bad("cached-file-not-served-after-live-build", "after a build performed while the server runs, GET /files/%s returned %s with %d bytes; the cache holds %d bytes" % (name, st, len(body), len(data)))
+        for rid, table in sorted(histories.items()):
+            for src, targets in sorted(table.items()):
+                st, body = http_get(port, "/rules/%s/%s" % (rid, src))
+                judged("recorded-pair-after-live-build")
+                if st != 200 or body.decode("utf-8", "replace") != "\n".join(targets):
+                    bad("recorded-pair-not-served-after-live-build", "after a build performed while the server runs, GET /rules/%s/%s returned %s %r; the history file records %r" % (rid, src, st, body[:200], targets))
+
         # malformed and hostile
         for target in hostile_targets(rng, sorted(cache), sorted(p for p in outside if not p.startswith(".ruler"))):
             raw = target if isinstance(target, bytes) else target.encode("utf-8")
             st, body = http_get(port, target)
             judged("hostile")
-            for p, content in outside.items():
-                if len(content) > 0 and body == content:
-                    bad("file-outside-cache-served", "request %r returned the bytes of %s" % (raw[:100], p))
             valid_uri = len(raw) > 0 and raw.startswith(b"/") and all(c in VALID_URI_BYTES for c in raw)
             if st == 200:
                 # a 200 is right only when the request names a cached hash: /files/<hash>, optionally followed by one '/'
@@ -226,10 +254,15 @@ def one_case(ctx, case):
                     bad("unexpected-200", "request %r returned 200 with %d bytes although it does not name a cached hash" % (raw[:120], len(body)))
                 else:
                     count("hostile_requests_that_legitimately_name_a_cached_hash")
+                    continue
             elif valid_uri and st != 404:
                 bad("malformed-name-not-404", "request %r returned %s instead of 404" % (raw[:120], st))
             elif not valid_uri and st not in (400, 404, None):
                 bad("invalid-request-accepted", "request %r (not a valid request target) returned %s" % (raw[:120], st))
+            # whatever the status, the body must never be the content of a file outside cache/ and history/
+            for p, content in outside.items():
+                if len(content) > 0 and body == content:
+                    bad("file-outside-cache-served", "request %r returned the bytes of %s" % (raw[:100], p))
         # liveness
         if cache:
             name = sorted(cache)[0]
